@@ -65,6 +65,7 @@ package fans
 //@   returns (result, err)
 //@   requires hwWF(fan)
 //@   ensures err == nil ==> result == fileInt[hwPwmPath(fan)] && fan.Pwm == result
+//@   ensures lastReadFailed == (err != nil)
 //@   ensures err != nil ==> result == 0 && fan.Pwm == old(fan.Pwm)
 //@   modifies fan.Pwm, lastReadFailed
 
